@@ -104,7 +104,14 @@ def _worker(args):
             ok, info = False, ""
             from symx.core import Cex as _Cex
 
-            for vals in [c.values] + list(getattr(c, "alternatives", [])):
+            # last resorts: a generic instance near the model (boundary-valued models such as all-zero data often make both sides
+            # coincide) and the replayer's own default instance. Sound: only what REPRODUCES on the real code is reported.
+            from fractions import Fraction as _Fr
+
+            generic = dict(c.values)
+            for i, k in enumerate(sorted(k for k, v in c.values.items() if isinstance(v, _Fr))):
+                generic[k] = c.values[k] + _Fr(137 * (i + 1) % 1000, 1000) + _Fr(i, 7)
+            for vals in [c.values] + list(getattr(c, "alternatives", [])) + ([generic, {}] if c.kind != "exception" and not (regions or {}).get(c.label) else []):  # never where a known-finding region exists
                 try:
                     with redirect_stdout(buf):
                         ok, info = case.replay(_Cex(c.label, vals, c.detail, c.path, c.kind))
